@@ -23,6 +23,10 @@ func main() {
 		os.Exit(2)
 	}
 	id := os.Args[1]
+	if id == "cachechild" {
+		cacheChild()
+		return
+	}
 	fs := flag.NewFlagSet("hx", flag.ExitOnError)
 	tier := fs.String("tier", "quick", "quick|thorough")
 	seed := fs.Int64("seed", 1, "PRNG seed")
